@@ -16,7 +16,12 @@ SIGMA = {"SigmaValueError": 1, "SigmaPlaceholderError": 2, "SigmaTypeError": 3, 
          "SigmaTransformationError": 8}
 CRASH = {"ValueError": 1, "TypeError": 2, "AttributeError": 3, "KeyError": 4, "IndexError": 5,
          "NotImplementedError": 6, "UnboundLocalError": 7}
-COND_ERR = {"ph": 2, "type": 1, "cond": 4}
+COND_ERR = {"ph": 2, "gph": 2, "type": 1, "cond": 4}
+FINE = ("ok", "gok")
+
+
+def base_kind(c):
+    return c[1:] if c.startswith("n") else c
 
 # ---- rule variants ------------------------------------------------------------------------------------
 def D(conds, stage="ok", form="list", fld=0):
@@ -34,6 +39,51 @@ MULTI_FAIL = [D(["ok", "ph"]), D(["ph", "ok"]), D(["ok", "type"]), D(["ok", "con
               D(["ok", "ok"], form="and"), D(["ok", "ok", "ok"], form="1of"), D(["ok", "ok"], form="or")]
 
 
+# rules with selections below a NOT: fine ones, and ones that fail while the negated part is rendered (with
+# convert_not_as_not_eq the backend swaps its expression templates for the time of that rendering)
+NEG_FINE = [D(["nok"]), D(["ok", "nok"], form="and"), D(["ngok"]), D(["ok", "ngok"])]
+NEG_FAIL = [D(["nph"]), D(["ngph"]), D(["ntype"]), D(["ok", "nph"], form="and"), D(["ok", "ngph"]),
+            D(["nph", "ok"]), D(["nok", "ngph", "ok"], form="and")]
+
+
+def negated(quick):
+    """not-equals rendering: every sequence over {fine plain, fine two-condition, fine negated, placeholder below NOT,
+    placeholder in a group below NOT (after a comparison that rendered negated), keyword boolean below NOT}, every
+    position; each remaining negated variant at every position among fine rules; with and without convert_not_as_not_eq"""
+    out = []
+    alpha = [BASIC[0], BASIC[1], D(["ok", "nok"], form="and"), D(["nph"]), D(["ngph"]), D(["ntype"])]
+    for n in (1, 2):
+        for t in itertools.product(alpha, repeat=n):
+            for pipe in (True, False):
+                for c in (True, False):
+                    out.append(mk(t, pipe, "test", c, noteq=True))
+            out.append(mk(t, False, "default", True, noteq=False))
+    for t in itertools.product(alpha, repeat=3):
+        out.append(mk(t, False, "test", True, noteq=True))
+        if not quick:
+            out.append(mk(t, True, "default", False, noteq=True))
+            out.append(mk(t, True, "test", True, noteq=False))
+    if not quick:
+        for t in itertools.product(alpha, repeat=4):
+            out.append(mk(t, False, "test", True, noteq=True))
+    fine = [BASIC[0], BASIC[1], D(["ok", "nok"], form="and"), D(["ngok"])]
+    for n in range(2, 4 if quick else 6):
+        for pos in range(n):
+            for bad in NEG_FAIL + NEG_FINE:
+                t = [fine[(j + pos) % len(fine)] for j in range(n)]
+                t[pos] = bad
+                out.append(mk(t, True, "test", True, noteq=True))
+                if not quick:
+                    out.append(mk(t, False, "default", False, noteq=True))
+                    out.append(mk(t, True, "test", True, noteq=False))
+    # a correlation rule over rules rendered negated, behind a rule that failed in negated rendering
+    for bad in NEG_FAIL[:3 if quick else 7]:
+        for g in (True, False):
+            out.append(mk([bad, D(["ok", "nok"], form="and"), Cr([1], g), BASIC[1]], True, "test", True, noteq=True))
+            out.append(mk([D(["ngok"]), bad, Cr([0], g), BASIC[0], Cr([3, 0], not g)], False, "test", True, noteq=True))
+    return out
+
+
 def with_fields(rules, rng=None):
     out = []
     for i, r in enumerate(rules):
@@ -44,23 +94,25 @@ def with_fields(rules, rng=None):
     return out
 
 
-def mk(rules, pipe, fmt, collect, fcs=False, rng=None):
+def mk(rules, pipe, fmt, collect, fcs=False, rng=None, noteq=False):
     rules = with_fields(rules, rng)
     if not pipe:   # the pipeline stages do not exist without a pipeline
         for r in rules:
             if r["stage"] in ("pipe", "fin", "crash"):
                 r["stage"] = "ok"
-    return {"rules": rules, "pipe": pipe, "fmt": fmt, "collect": collect, "fcs": fcs}
+    return {"rules": rules, "pipe": pipe, "fmt": fmt, "collect": collect, "fcs": fcs, "noteq": noteq}
 
 
 def random_rule(rng, pipe, pfail):
     if rng.random() < pfail:
-        pool = [r for r in BASIC + MULTI_FAIL if expected_d(r, True)[0] != "ok" or r["stage"] == "fin"]
+        pool = [r for r in BASIC + MULTI_FAIL + NEG_FAIL if expected_d(r, True)[0] != "ok" or r["stage"] == "fin"]
         r = copy.deepcopy(rng.choice(pool))
         if rng.random() < 0.05:
             r["stage"] = "crash"
         return r
     n = rng.choice([1, 1, 2, 2, 3])
+    if rng.random() < 0.3:
+        return D([rng.choice(["ok", "nok", "gok", "ngok"]) for _ in range(n)], form=rng.choice(["list", "and"]))
     return D(["ok"] * n, form=rng.choice(["list", "list", "and", "or", "1of"]))
 
 
@@ -173,6 +225,8 @@ def gen(tier, rng):
                         out.append(mk(list(t) + [Cr(refs, g), Cr([n, 0], g, "ok")], True, "default", True, fcs=not g))
     # 3b. correlation rules interleaved with detection rules
     out += interleaved(quick)
+    # 3c. negated selections, convert_not_as_not_eq
+    out += negated(quick)
     # 4. random collections of 1..6 rules (+ up to 3 correlation rules at random positions), any subset failing
     for _ in range(350 if quick else 6000):
         n = rng.randint(1, 6)
@@ -183,7 +237,8 @@ def gen(tier, rng):
             rules = add_correlations(rules, rng, rng.randint(1, 3))
         if rng.random() < 0.1 and len(rules) > 1:      # the coordinator's shape: base, emitting correlation, failing, two-condition
             rules = insert_rule(rules, 1, Cr([0], rng.random() < 0.5))
-        out.append(mk(rules, p, rng.choice(["test", "default"]), rng.random() < 0.7, fcs=rng.random() < 0.2, rng=rng))
+        out.append(mk(rules, p, rng.choice(["test", "default"]), rng.random() < 0.7, fcs=rng.random() < 0.2, rng=rng,
+                      noteq=rng.random() < 0.4))
     return out
 
 
@@ -193,11 +248,11 @@ def expected_d(r, pipe):
         return ("err", 8)
     if pipe and r["stage"] == "crash":
         return ("crash", 1)
-    conds = r["conds"]
+    conds = [base_kind(c) for c in r["conds"]]
     if r.get("form", "list") != "list" and len(conds) > 1 and "cond" in conds:
         return ("err", 4)      # the single condition expression does not parse
     for c in conds:
-        if c != "ok":
+        if c not in FINE:
             return ("err", COND_ERR[c])
     return ("ok", None)
 
@@ -266,11 +321,12 @@ def mutate(c, rng):
             d["rules"][i]["gen"] = not d["rules"][i]["gen"]
             out.append(d)
         else:
-            for conds in (["ok"], ["ph"], ["ok", "ok"], ["ok", "cond"]):
+            for conds in (["ok"], ["ph"], ["ok", "ok"], ["ok", "cond"], ["nph"], ["nok"], ["ngph"]):
                 d = copy.deepcopy(c)
                 d["rules"][i]["conds"] = conds
                 out.append(d)
-    for key, vals in (("collect", (True, False)), ("pipe", (True, False)), ("fmt", ("test", "default")), ("fcs", (True, False))):
+    for key, vals in (("collect", (True, False)), ("pipe", (True, False)), ("fmt", ("test", "default")), ("fcs", (True, False)),
+                      ("noteq", (True, False))):
         for v in vals:
             if c.get(key) != v:
                 out.append(dict(copy.deepcopy(c), **{key: v}))
@@ -286,7 +342,7 @@ def mutate(c, rng):
 def stratum(c, r):
     n = len(c["rules"])
     nc = sum(1 for x in c["rules"] if x["k"] == "c")
-    return f"n={n} corr={'yes' if nc else 'no'} collect={c['collect']}"
+    return f"n={n} corr={'yes' if nc else 'no'} collect={c['collect']} noteq={bool(c.get('noteq'))}"
 
 
 REQ = ["Base.Chars", "Base.Outcome", "Model.Collection", "Spec.Collection", "Run.C08run"]
@@ -304,7 +360,10 @@ PROPERTY = Property(
          "interleaved with detection rules: one correlation rule (every reference subset of size <= 2, generate on/off) at every "
          "dependency-respecting position in front of / between 2..3 detection rules (fine, two-condition, failing at the second "
          "condition), and a second one (nested, or referring to the same base rule with equal / opposite generate) at every later "
-         "position; random collections of 1..6 rules + up to 3 correlation rules at random dependency-respecting positions. Oracle: fresh backend, fresh pipeline, freshly parsed rule for every rule on its "
+         "position; backend classes with convert_not_as_not_eq (a new class per backend object): every sequence of length <= 3 (thorough 4) over "
+         "{fine plain, fine two-condition, fine negated, placeholder below NOT, placeholder in a group below NOT after a comparison "
+         "that rendered negated, keyword boolean below NOT}, further negated variants at every position among fine rules, with "
+         "correlation rules; random collections of 1..6 rules + up to 3 correlation rules at random dependency-respecting positions. Oracle: fresh backend, fresh pipeline, freshly parsed rule for every rule on its "
          "own. Only dependency-respecting document orders (a correlation rule after the rules it names; other orders are C09). "
          "non-trivial = some rule fails or a correlation rule is present; distinct by case hash",
     assumptions=["per-rule conversion (pipeline application, condition conversion, finish_query) is a parameter of the theorems; the "
